@@ -82,6 +82,9 @@ REF_PROGRAMS = {
     "own-started-event": "flow tracked\n  match FlowStarted(flow_id=\"tracked\") as $started\n  match E1()\n  send Echo(f=$started.flow_id)\n  match E3()\n\nflow main\n  start tracked\n  match Never()\n",
     # the Finished event of an action whose flow is over (Stop was sent) arrives later; `$e.action` is looked at
     "event-action-of-ended-flow": "flow speaker\n  start SpeechBotAction(script=\"a long speech\") as $speech\n  match E1()\n\nflow main\n  start speaker\n  match SpeechBotAction.Finished() as $e\n  send Echo(a=str($e.action.start_event_arguments))\n  match Never()\n",
+    # an activated flow that failed while matching (it is not restarted) is activated a second time later on
+    "activated-flow-failed-while-matching-then-activated-again": "flow g\n  global $pat\n  match E1(p=regex($pat))\n  send Pong()\n\nflow fixer\n  global $pat\n  match E2()\n  $pat = \"a\"\n\nflow main\n  global $pat\n  $pat = \"(\"\n  activate g\n  start fixer\n  match E3()\n  activate g\n  send Again()\n  match Never()\n",
+    "activated-flow-finished-then-activated-again": "flow g\n  match E1()\n  send Pong()\n  match E2()\n\nflow a1\n  activate g\n  match E2()\n\nflow main\n  start a1\n  match E3()\n  activate g\n  send Again()\n  match Never()\n",
     "await-then-finish": "flow c\n  match E1()\n  match E2()\n\nflow d\n  match E1()\n\nflow main\n  start c\n  await d\n  send Echo()\n  match E3()\n  send Echo2()\n  match Never()\n",
 }
 
